@@ -15,7 +15,9 @@ let kv_of (s : string) : char list * char list =
   (chars_of_hex k, chars_of_hex v)
 
 (* body tokens: x<hex> | #<sha256>:<len> (projection of big bodies), optional !<err> *)
+let lenient = ref false   (* failing body source: a body token may carry !<err> *)
 let bytes_tok (t : string) : char list =
+  let t = if !lenient then fst (split1 '!' t) else t in
   if String.contains t '!' then raise (Unrep t)
   else if String.length t > 0 && t.[0] = '#' then chars_of_string t
   else chars_of_hex t
@@ -81,6 +83,8 @@ let judge _name ins outs =
   | _ ->
   if List.mem "PANIC" outs then VPropfail ("logger_error", "harness-level-panic") else
   let isreq = (match ins with "REQ" :: _ -> true | "RES" :: _ -> false | _ -> failwith "kind") in
+  let srcfail = List.mem "srcfail=1" outs in
+  lenient := srcfail;
   let ga = toks_with "" ins in
   let lg = logger_of (get ga "lg") in
   let skip = (get ga "skip" = "1") in
@@ -92,7 +96,11 @@ let judge _name ins outs =
   let after = (try Some (msg_of isreq "a" outs) with Unrep _ -> None) in
   (match after with
    | None -> VPropfail ("forwarded_unchanged", "message-unreadable-after-logging")
-   | Some (am, td_a) ->
+   | Some (am0, td_a) ->
+  (* failing body source: which body bytes each twin still yields is judged by
+     the harness on the serialised outcome (fwd=); the fields are compared
+     with the body taken out *)
+  let am = if srcfail then set_body am0 am0.m_nobody m.m_body else am0 in
   let sl = toks_with "s." outs in
   let sec_err = List.exists (fun (_, v) -> String.contains v '!') (List.filter (fun (k, _) -> k <> "dec") sl) in
   let sections =
@@ -119,13 +127,16 @@ let judge _name ins outs =
       | None -> None) in
   let o = { ob_after = am; ob_fwd_same = (get go "fwd" = "1"); ob_sections = sections;
             ob_reparse = ob_reparse; ob_records = nat_of_int rec_n; ob_err = (err <> "0");
-            ob_startline = startline } in
+            ob_src_failed = srcfail; ob_startline = startline } in
   (* ---------------- property oracle on the real observation ---------------- *)
   if sec_err then VPropfail ("sections_partition", "reading-a-section-failed") else
   if not (forwarded_ok m o) || td_o <> td_a then
     VPropfail ("forwarded_unchanged",
                sp (Printf.sprintf "%s orig=%s after=%s wire-same=%s unlogged-framing=%s logged-framing=%s"
-                     (if List.mem "conc=0" outs then "concurrent-run-differs-from-sequential" else
+                     (if srcfail && get go "fwd" = "0" then
+                        Printf.sprintf "failing-body-source unlogged:err=%s,complete=%s logged:err=%s,complete=%s"
+                          (get go "uwerr") (get go "ucomplete") (get go "lwerr") (get go "lcomplete") else
+                      if List.mem "conc=0" outs then "concurrent-run-differs-from-sequential" else
                       if msg_eqb m am && td_o = td_a then "fields=same"
                       else if msg_eqb (set_body m am.m_nobody m.m_body) am && td_o = td_a then "only-nobody-flag-differs"
                       else "fields=differ")
@@ -146,6 +157,13 @@ let judge _name ins outs =
                    | None -> "?"))
   else if not (skip_ok skip o) then
     VPropfail ("skip_means_unrecorded", Printf.sprintf "records=%d" rec_n)
+  else if srcfail then begin
+    (* the logger that reads the body itself reports the source's error; nobody else errs *)
+    let want = reads_body lg skip m in
+    if o.ob_err <> want then
+      VDisagree (Printf.sprintf "failing-body-source logger-error model=%b real=%s" want err)
+    else VOk true
+  end
   else if o.ob_err then
     VPropfail ("logger_error",
                "err=" ^ err ^ (if logger_errors lg skip cls m then "_model=expects-error" else "_model=expects-none"))
